@@ -122,6 +122,10 @@ type Ranger struct {
 	stack []*ssa.Function
 	sums  map[string][]AV
 	quiet bool // evaluating comparison operands for an environment: no diagnostics
+	steps int
+	// Exhausted is set when the evaluation budget ran out: every later answer is ⊤ and the
+	// rule that asked must report "undecided" rather than trust a relation.
+	Exhausted bool
 }
 
 func NewRanger(P *Program, spec *RangeSpec) *Ranger {
@@ -566,7 +570,17 @@ func (E *Ranger) ValAt(ctx *callCtx, v ssa.Value, in ssa.Instruction) AV {
 	return E.eval(ctx, E.EnvAt(ctx, in), v, 0)
 }
 
+// MaxRangerSteps bounds one Ranger's work (value evaluations).
+const MaxRangerSteps = 400000
+
 func (E *Ranger) eval(ctx *callCtx, env *evalEnv, v ssa.Value, depth int) AV {
+	E.steps++
+	if E.steps > MaxRangerSteps {
+		E.Exhausted = true
+		av := topAV()
+		av.D = DUnk
+		return av
+	}
 	v = E.fwd(ctx, v)
 	if v == nil {
 		return topAV()
